@@ -171,6 +171,13 @@ MUTS = {
     "S8-revert-F10i-kubeinject-namespace": (INJ, [('''		if decisionMeta.Namespace == "" {
 			decisionMeta.Namespace = namespace
 		}''', '''		_ = namespace''')]),
+    "T1-reflective-branch-namespace-dropped": (INJ, [('''		deploymentMetadata = types.NamespacedName{Name: om.GetName(), Namespace: om.GetNamespace()}''', '''		deploymentMetadata = types.NamespacedName{Name: om.GetName()}''')]),
+    "T3-never-selector-json-tag-renamed": (INJ, [('''	NeverInjectSelector []metav1.LabelSelector `json:"neverInjectSelector"`''', '''	NeverInjectSelector []metav1.LabelSelector `json:"neverInjectSelectors"`''')]),
+    "T4-status-annotation-bypasses-decision": (WH, [('''	if !injectRequired(IgnoredNamespaces.UnsortedList(), wh.Config, &pod.Spec, pod.ObjectMeta) {''', '''	if _, again := pod.Annotations[annotation.SidecarStatus.Name]; !again && !injectRequired(IgnoredNamespaces.UnsortedList(), wh.Config, &pod.Spec, pod.ObjectMeta) {''')]),
+    "T7-reinsert-init-overrides-into-containers": (WH, [('''		pod.Spec.InitContainers = append(pod.Spec.InitContainers, c)''', '''		pod.Spec.Containers = append(pod.Spec.Containers, c)''')]),
+    "TU-funcmap-key-renamed-config-unloadable": ("pkg/kube/inject/template.go", [('''		"otelResourceAttributes": otelResourceAttributes,''', '''		"otelResourceAttributesX": otelResourceAttributes,''')]),
+    "T8-revert-F10j-cronjob-decision": (INJ, [('''		if podMetadata != nil {''', '''		if false && podMetadata != nil {''')]),
+    "T9-status-annotation-omits-volumes": (WH, [('''		stat.Volumes = append(stat.Volumes, c.Name)''', '''		_ = c''')]),
     "P7-status-annotation-not-stripped": (INJ, [('''	delete(pod.Annotations, annotation.SidecarStatus.Name)
 
 	return pod''', '''	return pod''')]),
